@@ -109,16 +109,16 @@ PROPS['C07'] = {
     'queries': [
         dict(name='cv_notify_W1', kernel='C07_condvar.cpp', prefix='cvn_', mode='res', lower_defs=['-DNWAITERS=1'], shim='shim_sync', inline=20000, R=3, BMAX=60, unwind=3, covers=[0], timeout=2400),
         dict(name='cv_timed', kernel='C07_condvar.cpp', prefix='cvt_', mode='res', lower_defs=['-DNWAITERS=1'], shim='shim_sync', inline=20000, R=3, BMAX=60, unwind=3, covers=[0], timeout=2400),
-        dict(name='cv_stop_token', kernel='C07_condvar.cpp', prefix='cvs_', mode='res', lower_defs=['-DNWAITERS=1'], shim='shim_sync', inline=20000, R=3, BMAX=60, unwind=3, covers=[0], timeout=14000,
+        dict(name='cv_stop_token', kernel='C07_condvar.cpp', prefix='cvs_', mode='res', lower_defs=['-DNWAITERS=1'], shim='shim_sync', inline=20000, R=3, BMAX=60, unwind=3, covers=[0], timeout=3600,
              noinline=[CV_ABORT_ALL + '.*'], cut=[CV_ABORT_ALL], tiers=('thorough',)),
         dict(name='cv_notify_W2', kernel='C07_condvar.cpp', prefix='cvn_', mode='res', lower_defs=['-DNWAITERS=2'], shim='shim_sync', inline=20000, R=3, BMAX=60, unwind=4, covers=[0], timeout=6000, tiers=('thorough',)),
         dict(name='cv_notify_W1_pikamutex', kernel='C07_condvar.cpp', prefix='cvn_', mode='res', lower_defs=['-DNWAITERS=1', '-DUSE_PIKA_MUTEX'], shim='shim_sync', inline=20000, R=3, BMAX=60, unwind=3, covers=[0], timeout=6000, tiers=('thorough',)),
     ],
 }
 
-def _c09(name, prefix, npart=2, tiers=('quick', 'thorough'), R=3, unwind=3, timeout=2400, defs=()):
+def _c09(name, prefix, npart=2, tiers=('quick', 'thorough'), R=3, unwind=3, timeout=2400, defs=(), mem_gb=14):
     return dict(name=name, kernel='C09_latch_barrier.cpp', prefix=prefix, mode='res', lower_defs=['-DNPART=%d' % npart] + list(defs), shim='shim_sync', inline=20000, R=R, BMAX=60,
-                unwind=unwind, covers=[0], timeout=timeout, tiers=tiers)
+                unwind=unwind, covers=[0], timeout=timeout, tiers=tiers, mem_gb=mem_gb)
 
 PROPS['C09'] = {
     'assumptions': SYNC_ASSUMPTIONS + ['latch/barrier with 2 (quick) or 3 (thorough) participants; barrier: 2 phases, starting ticket of the tournament tree (hash of the thread id) arbitrary; '
@@ -127,7 +127,7 @@ PROPS['C09'] = {
         _c09('latch_P2', 'lat_'), _c09('barrier_P2', 'bar_', unwind=4), _c09('event_T3', 'evt_'), _c09('call_once_T2', 'onc_'),
         _c09('barrier_P3_1phase', 'bar_', 3, unwind=4, timeout=3000, defs=['-DNPHASE=1']),
         _c09('barrier_drop_P2', 'bard_', unwind=4),
-        _c09('latch_P3', 'lat_', 3, ('thorough',), timeout=7000), _c09('barrier_P3', 'bar_', 3, ('thorough',), R=4, unwind=5, timeout=10000),
+        _c09('latch_P3', 'lat_', 3, ('thorough',), timeout=7000), _c09('barrier_P3', 'bar_', 3, ('thorough',), R=4, unwind=5, timeout=3600, mem_gb=40),
     ],
 }
 
@@ -141,8 +141,8 @@ PROPS['C18'] = {
         dict(name='unique_function_hist_k4', kernel='C18_function.cpp', prefix='fn_', mode='seq', inline=20000, unwind=26, lower_defs=['-DHIST_K=4', '-DUNIQUE'], covers=[0], timeout=2400),
         dict(name='any_sender_hist_k3', kernel='C18_any_sender.cpp', prefix='as_', mode='seq', inline=20000, unwind=26, lower_defs=['-DHIST_K=3'], covers=[0], timeout=3000),
         dict(name='unique_any_sender_hist_k3', kernel='C18_any_sender.cpp', prefix='as_', mode='seq', inline=20000, unwind=26, lower_defs=['-DHIST_K=3', '-DUNIQUE'], covers=[0], timeout=3000),
-        dict(name='any_sender_hist_k4', kernel='C18_any_sender.cpp', prefix='as_', mode='seq', inline=20000, unwind=26, lower_defs=['-DHIST_K=4'], covers=[0], timeout=12000, tiers=('thorough',)),
-        dict(name='unique_any_sender_hist_k4', kernel='C18_any_sender.cpp', prefix='as_', mode='seq', inline=20000, unwind=26, lower_defs=['-DHIST_K=4', '-DUNIQUE'], covers=[0], timeout=12000, tiers=('thorough',)),
+        dict(name='any_sender_hist_k4', kernel='C18_any_sender.cpp', prefix='as_', mode='seq', inline=20000, unwind=26, lower_defs=['-DHIST_K=4'], covers=[0], timeout=5400, tiers=('thorough',)),
+        dict(name='unique_any_sender_hist_k4', kernel='C18_any_sender.cpp', prefix='as_', mode='seq', inline=20000, unwind=26, lower_defs=['-DHIST_K=4', '-DUNIQUE'], covers=[0], timeout=5400, tiers=('thorough',)),
         dict(name='function_hist_k5', kernel='C18_function.cpp', prefix='fn_', mode='seq', inline=20000, unwind=26, lower_defs=['-DHIST_K=5'], covers=[0], timeout=10000, tiers=('thorough',)),
     ],
 }
@@ -207,8 +207,8 @@ PROPS['C03'] = {
     'queries': [dict(name=n, kernel='C03_concurrent.cpp', prefix=pf, mode='res', shim='shim_sync', inline=20000, R=3, BMAX=60, unwind=4, covers=[0], timeout=to, mem_gb=mem, tiers=tiers,
                      cut=['_ZNSt16allocator_traitsISaIN4pika12split_detail12shared_stateI5dleafSaIiEEEEE7destroy',
                           '_ZNSt16allocator_traitsISaIN4pika21ensure_started_detail21ensure_started_senderI5dleafSaIiEE12shared_stateEEE7destroy'])
-                for n, pf, to, mem, tiers in [('when_all_two_threads', 'wac_', 2400, 14, ('quick', 'thorough')), ('split_concurrent_consumers', 'spc_', 9000, 28, ('thorough',)),
-                                              ('ensure_started_concurrent', 'esc_', 9000, 28, ('thorough',))]] +
+                for n, pf, to, mem, tiers in [('when_all_two_threads', 'wac_', 2400, 14, ('quick', 'thorough')), ('split_concurrent_consumers', 'spc_', 3600, 28, ('thorough',)),
+                                              ('ensure_started_concurrent', 'esc_', 3600, 28, ('thorough',))]] +
                [_c03('then_inline', 'then_'), _c03('let_value_inline', 'let_'), _c03('let_error_inline', 'lete_'), _c03('when_all_inline', 'wall_'), _c03('split_two_consumers_inline', 'split_'),
                 _c03('ensure_started_inline', 'ens_'), _c03('drop_value_inline', 'drop_')],
 }
